@@ -68,10 +68,61 @@ def seeded():
     return "\n".join(out)
 
 
+def coverage():
+    """union over all evidence files of the implementation lines the checks executed"""
+    never = None
+    totals = {}
+    per = []
+    for f in sorted(glob.glob(os.path.join(VERIF, "evidence", "C*.json"))):
+        d = json.load(open(f, encoding="utf-8"))
+        c = d["coverage"].get("impl_line_coverage")
+        if not c:
+            continue
+        per.append("%s %d/%d" % (d["property_id"], c["total"][0], c["total"][1]))
+        miss = {k: set(v) for k, v in c.get("lines_not_executed", {}).items()}
+        for k, v in c.items():
+            if isinstance(v, list) and k != "total":
+                totals[k] = v[1]
+        never = miss if never is None else {k: never.get(k, set()) & miss.get(k, set()) for k in set(never) | set(miss)}
+    if never is None:
+        return "(no coverage recorded yet)"
+
+    def ranges(ls):
+        out, ls = [], sorted(ls)
+        i = 0
+        while i < len(ls):
+            j = i
+            while j + 1 < len(ls) and ls[j + 1] == ls[j] + 1:
+                j += 1
+            out.append(str(ls[i]) if i == j else "%d-%d" % (ls[i], ls[j]))
+            i = j + 1
+        return ", ".join(out)
+    rows = ["| file | executable lines in function bodies | executed by at least one check | never executed (line numbers) |", "|---|---|---|---|"]
+    for k in sorted(totals):
+        n = len(never.get(k, set()))
+        rows.append("| `%s` | %d | %d | %s |" % (k, totals[k], totals[k] - n, ranges(never.get(k, set())) or "-"))
+    return "Per check (quick tier): " + ", ".join(per) + ".\n\n" + "\n".join(rows)
+
+
+def asbuilt(pid):
+    import mkmanifest
+    ent = mkmanifest.TABLE.get(pid)
+    if not ent:
+        return ""
+    return "**As built** (`lean/Blackbird/Props/%s*.lean`, `harness/props/%s.py`). %s *Technique:* %s. *Note:* %s" % (
+        pid, pid.lower(), ent[1], ent[2], ent[4])
+
+
 def main():
     p = os.path.join(VERIF, "DESIGN.md")
     s = open(p, encoding="utf-8").read()
-    for key, fn in (("theorems", theorems), ("status", status), ("findings", findings), ("seeded", seeded)):
+    for n in range(1, 20):
+        pid = "C%02d" % n
+        a, b = "<!-- AUTO:asbuilt-%s -->" % pid, "<!-- /AUTO:asbuilt-%s -->" % pid
+        if a in s and b in s:
+            i, j = s.index(a) + len(a), s.index(b)
+            s = s[:i] + "\n" + asbuilt(pid) + "\n" + s[j:]
+    for key, fn in (("theorems", theorems), ("status", status), ("findings", findings), ("seeded", seeded), ("coverage", coverage)):
         a, b = "<!-- AUTO:%s -->" % key, "<!-- /AUTO:%s -->" % key
         if a in s and b in s:
             i, j = s.index(a) + len(a), s.index(b)
